@@ -72,6 +72,14 @@ def derivation(f, expr, depth=0):
             ds = defs_before(f, base.id, expr)
             if not ds:
                 return base.id, names, calls
+            # a parameter re-bound only under a condition: the argument
+            # itself reaches the use as well
+            anc = set(id(a) for a in ancestors(expr))
+            if not any(all(id(a) in anc or a is f.node for a in ancestors(d)
+                           if isinstance(a, (ast.If, ast.For, ast.While,
+                                             ast.Try, ast.FunctionDef)))
+                       for d in ds):
+                return "<multiple:%s>" % base.id, names, calls
         else:
             ds = defs_before(f, base.id, expr)
         if len(ds) == 1:
